@@ -590,8 +590,7 @@ class RcUnit(Unit):
         self.self_lean = self_lean or sinfo.lean
         self.fn_lead = fn_lead or {}
         self.callee_lead, self.callee_ns = {}, {}
-        lead = "".join(" " + a for a in lead_args)
-        self.extern = {m: f"{namespace}.{m}{lead}" for m in methods}
+        self.extern = {m: f"{namespace}.{m}" + "".join(" " + a for a in self.fn_lead.get(m, (None, lead_args))[1]) for m in methods}
 
     def translate_fn(self, fname):
         inferred = {}
@@ -664,12 +663,16 @@ def build_units(report):
         report["RandCoreSeedable"] = dict(error="trait SeedableRng not found")
         return
     ms = {k: v for k, v in tr.fns.items() if k in ("seed_from_u64", "from_rng", "try_from_rng") and v.body is not None}
+    if "seed_from_u64" in ms:
+        import extract_units
+        extract_units.add_nested(ms, "seed_from_u64", None, {})
     u = RcUnit("RandCoreSeedable", StructInfo("SeedableRng", "σ", {}), ms, "Rngs.Ext.RandCoreSeedable",
                ["{σ : Type}", "(seedLen : Nat)", "(fromSeed : List U8 → σ)"], ["seedLen", "fromSeed"], seedable=True, self_lean="σ",
-               fn_lead={"from_rng": (["{σ ρ : Type}", "(seedLen : Nat)", "(fromSeed : List U8 → σ)"], ["seedLen", "fromSeed"]),
+               fn_lead={"pcg32": ([], []),
+                        "from_rng": (["{σ ρ : Type}", "(seedLen : Nat)", "(fromSeed : List U8 → σ)"], ["seedLen", "fromSeed"]),
                         "try_from_rng": (["{σ ρ : Type}", "(seedLen : Nat)", "(fromSeed : List U8 → σ)"], ["seedLen", "fromSeed"])})
     u.shape, u.seed_len, u.file = ("rand_core", 0), None, "rand_core-0.9.5/src/lib.rs"
-    yield u, ["seed_from_u64", "from_rng", "try_from_rng"]
+    yield u, ["pcg32", "seed_from_u64", "from_rng", "try_from_rng"]
 
 # ------------------------------------------------------------------ correspondence theorems (statement, property ids, proof script)
 def _block(G, M, w):
@@ -743,6 +746,27 @@ PROOF_FVC = """intro w size toLE src dest hs hlen
   · have hd : List.drop K src = [] := List.drop_eq_nil_of_le (by omega)
     simp only [hlt, decide_false, Bool.false_eq_true, if_false, hd]"""
 
+PROOF_SEED = """intro σ seedLen fromSeed x
+  unfold Ext.RandCoreSeedable.seed_from_u64 pcg32Seed
+  simp only [Nat.zero_add, Nat.sub_zero, List.length_replicate, List.range_eq_range']
+  rw [show (x, List.replicate seedLen (0#8)) = (x, ([] : List U8) ++ List.replicate seedLen (0#8)) from rfl]
+  rw [foldl_chunks Rngs.pcg32 4 pcg32_length _ (by intro s buf j; simp only [ExtTie.RandCoreSeedable.pcg32]) (seedLen / 4) 0 x [] _ rfl, chunksOf_pcg32]
+  have hl := pcg32Chunks_length (seedLen / 4) x
+  generalize pcg32Chunks (seedLen / 4) x = p at hl ⊢
+  have hr : (List.drop (seedLen / 4 * 4) (List.replicate seedLen (0#8))).length = seedLen % 4 := by
+    simp only [List.length_drop, List.length_replicate]; omega
+  simp only [List.nil_append, ExtTie.RandCoreSeedable.pcg32]
+  by_cases h0 : seedLen % 4 = 0
+  · have hd : List.drop (seedLen / 4 * 4) (List.replicate seedLen (0#8)) = [] := List.eq_nil_of_length_eq_zero (by omega)
+    simp [h0, hd]
+  · have hx : (List.take (seedLen % 4) (Rngs.pcg32 p.2).1).length
+        = (List.drop (seedLen / 4 * 4) (List.replicate seedLen (0#8))).length := by
+      rw [hr, List.length_take, pcg32_length]; omega
+    have hb : (!(seedLen % 4 == 0)) = true := by simp [h0]
+    rw [if_pos hb, if_pos h0]
+    simp only []
+    rw [splice_at_end _ _ _ _ (by omega) hx]"""
+
 RC_THEOREMS = {
     "RandCore": {
         "read_u32_into": _read_into(32), "read_u64_into": _read_into(64),
@@ -777,6 +801,10 @@ RC_THEOREMS = {
       simp only [h4, h0, if_false, hd, List.append_nil]"""),
     },
     "RandCoreSeedable": {
+        "pcg32": ("∀ s, Ext.RandCoreSeedable.pcg32 s = Rngs.pcg32 s", ["C09"],
+                  "intro s\n  simp only [Ext.RandCoreSeedable.pcg32, Rngs.pcg32, PCG_MUL, PCG_INC]"),
+        "seed_from_u64": ("∀ {σ : Type} (seedLen : Nat) (fromSeed : List U8 → σ) (x : U64), "
+                          "Ext.RandCoreSeedable.seed_from_u64 seedLen fromSeed x = fromSeed (pcg32Seed seedLen x)", ["C09"], PROOF_SEED),
         "from_rng": ("∀ {σ ρ : Type} (seedLen : Nat) (fromSeed : List U8 → σ) (fill : TryFill ρ) (src : ρ), "
                      "Ext.RandCoreSeedable.from_rng seedLen fromSeed fill src = fromRngDefault seedLen fromSeed fill src", ["C09"],
                      "intros\n  simp only [Ext.RandCoreSeedable.from_rng, fromRngDefault, List.length_replicate]\n  first | done | rfl"),
@@ -847,6 +875,22 @@ def _install():
                 if it is not None and it.get("pos") and n not in out and self.mentions((stmts, tail), n):
                     out.append(n)
             sc = sc.parent
+        # byte buffers written through views: every buffer that has a view / chunk iterator in scope is threaded through a block
+        # that copies into slices (an over-approximation; entries are Var objects because the Rust name may be shadowed)
+        if "copy_from_slice" in text:
+            bufs = []
+            sc = self.scope
+            while sc:
+                for n, v in sc.vars.items():
+                    d = getattr(v, "dyn", None)
+                    it = getattr(v, "iter", None)
+                    b = d.base if d is not None else (it["view"].base if it is not None and it.get("kind") == "chunks" else None)
+                    if b is not None and not any(b is x for x in bufs):
+                        bufs.append(b)
+                sc = sc.parent
+            for b in bufs:
+                if not any((x is b) or (isinstance(x, str) and self.scope.get(x) is b) for x in out):
+                    out.append(b)
         return out
     C.assigned = assigned
 
@@ -854,6 +898,9 @@ def _install():
     def tuple_of(self, names):
         plain, extra = [], []
         for n in names:
+            if isinstance(n, Var):
+                extra.append(n.lean)
+                continue
             v = self.scope.get(n) if n != "self" else None
             it = getattr(v, "iter", None) if v is not None else None
             if it is not None:
@@ -992,8 +1039,8 @@ def _install():
             d, sz = itv.iter["view"], itv.iter["size"]
             j = self.fresh("j") + "'"
             names = [x for x in self.assigned(body[0], body[1], declared={var[1]}) if x != itv.name]
-            if d.base.name not in names:
-                names.append(d.base.name)
+            if not any((x is d.base) or (isinstance(x, str) and self.scope.get(x) is d.base) for x in names):
+                names.append(d.base)
             def f():
                 cv = Var(var[1], ("slice", "u8"), None)
                 off = f"({itv.iter['pos']} + {j}) * {sz}" if d.off == "0" else f"{d.off} + ({itv.iter['pos']} + {j}) * {sz}"
